@@ -300,7 +300,39 @@ def run_history_sweep(case, seed, R):
 # ---------------------------------------------------------------------------------------------
 # argument forms: python int, numpy int32, numpy int64 (indices routinely come out of np.arange / array shapes)
 
-FORMS = {'int': int, 'int32': np.int32, 'int64': np.int64}
+FORMS = {'int': int, 'int32': np.int32, 'int64': np.int64, 'float': float, 'float64': np.float64}
+INT_FORMS = ('int', 'int32', 'int64')
+# Integer-valued floats are accepted by every map of the pinned tree except noll_to_nm (bitwise parity test on the index) and the m
+# argument of nm_to_name (same parity helper); refusing a non-integer *type* for an index is what Python itself does, the property
+# quantifies over integers -- those two combinations are left out of the alphabet (stated in the rule), all others must keep working.
+FWD_FORMS = {'ansi': tuple(FORMS), 'fringe': tuple(FORMS), 'xy': tuple(FORMS), 'noll': INT_FORMS}
+
+
+def as_pair_value(out):
+    """(ok, a, b) -- a pair of integer-VALUED real numbers (float forms may hand floats through), compared by value."""
+    if out is FAILED:
+        return False, None, None
+    try:
+        if len(out) != 2:
+            return False, None, None
+        vals = []
+        for v in out:
+            if isinstance(v, (bool, np.bool_)) or not isinstance(v, (int, float, np.integer, np.floating)) or v != int(v):
+                return False, None, None
+            vals.append(int(v))
+        return True, vals[0], vals[1]
+    except Exception:   # noqa
+        return False, None, None
+
+
+def as_int_value(out):
+    if out is FAILED or isinstance(out, (bool, np.bool_)) or not isinstance(out, (int, float, np.integer, np.floating)):
+        return None
+    try:
+        return int(out) if out == int(out) else None
+    except Exception:   # noqa
+        return None
+
 
 
 def run_forms_forward(case, seed, R):
@@ -314,7 +346,7 @@ def run_forms_forward(case, seed, R):
         out = R.call(f, cast(j), hygiene=False, sig=f'{fn}:{form}:exception')
         if out is FAILED:
             continue
-        ok, n, m = as_pair(out)
+        ok, n, m = as_pair(out) if form in INT_FORMS else as_pair_value(out)
         N.check(ok and (n, m) == ref[j], f'{fn}:{form}', lambda: f'{fn}({form}({j})) returned {out!r}; the published order has {ref[j]}')
     R.nontrivial()
     R.outcome('forms:' + conv)
@@ -333,17 +365,41 @@ def run_forms_inverse(case, seed, R):
                 out = R.call(getattr(pp, name), cn(n), cm(m), hygiene=False, sig=f'{name}:{fn_},{fm_}:exception')
                 if out is FAILED:
                     continue
-                j = as_int(out)
+                j = as_int(out) if (fn_ in INT_FORMS and fm_ in INT_FORMS) else as_int_value(out)
                 N.check(j == jw, f'{name}:{fn_},{fm_}', lambda: f'{name}({fn_}({n}), {fm_}({m})) returned {out!r}, expected {jw}')
             # nm_to_name is a pure index function too: its answer must not depend on the integer type of its arguments
             # (the names themselves are not part of C11; only form-invariance is judged)
-            if (fn_, fm_) != ('int', 'int'):
+            if (fn_, fm_) != ('int', 'int') and fm_ in INT_FORMS:
                 base = R.call(pp.nm_to_name, n, m, hygiene=False, sig='nm_to_name:int,int:exception')
                 out = R.call(pp.nm_to_name, cn(n), cm(m), hygiene=False, sig=f'nm_to_name:{fn_},{fm_}:exception')
                 if base is not FAILED and out is not FAILED:
                     N.check(isinstance(out, str) and out == base, f'nm_to_name:{fn_},{fm_}', lambda: f'nm_to_name({fn_}({n}), {fm_}({m})) = {out!r} but {base!r} for python ints')
     R.nontrivial(b > 1)
     R.outcome('forms:inverse')
+
+
+def run_forms_zero(case, seed, R):
+    """m = 0 spelled as a signed floating zero (what -abs(m) gives for float orders): still the m = 0 term."""
+    fn_, a, b = case['form_n'], case['n0'], case['n1']
+    cn = FORMS[fn_]
+    zeros = {'-0.0': -0.0, '+0.0': 0.0, 'float64(-0.0)': np.float64(-0.0), '-abs(0.0)': -abs(0.0), '-np.abs(float64(0))': -np.abs(np.float64(0.0)),
+             '-abs(float32(0))': -abs(np.float32(0.0))}
+    N = Notes(R)
+    for n in range(a + (a % 2), b, 2):
+        g = n // 2
+        want = {'nm_to_fringe': g * g + 1 + 2 * g, 'nm_to_ansi_j': (n * (n + 2)) // 2}
+        for zn, z in zeros.items():
+            for name, jw in want.items():
+                out = R.call(getattr(pp, name), cn(n), z, hygiene=False, sig=f'{name}:signed-zero:exception')
+                if out is FAILED:
+                    continue
+                N.check(as_int_value(out) == jw, f'{name}:signed-zero', lambda: f'{name}({fn_}({n}), {zn}) returned {out!r}; (n, 0) has index {jw}')
+            base = R.call(pp.nm_to_name, n, 0, hygiene=False, sig='nm_to_name:int,int:exception')
+            out = R.call(pp.nm_to_name, cn(n), z, hygiene=False, sig='nm_to_name:signed-zero:exception')
+            if base is not FAILED and out is not FAILED:
+                N.check(isinstance(out, str) and out == base, 'nm_to_name:signed-zero', lambda: f'nm_to_name({fn_}({n}), {zn}) = {out!r} but {base!r} for m = 0')
+    R.nontrivial()
+    R.outcome('forms:zero')
 
 
 def blocks(conv, J, size):
@@ -390,7 +446,8 @@ def plan(tier, seed):
     hs_cases = [{'conv': c, 'J': JS} for c in ('ansi', 'fringe', 'noll', 'xy')]
     JF = 2000 if tier == 'quick' else 20000
     NF = 60 if tier == 'quick' else 150
-    ff_cases = [{'conv': c, 'form': fm, 'j0': j, 'j1': min(j + 500, JF + 1)} for fm in FORMS for c in ('ansi', 'fringe', 'noll', 'xy') for j in range(0, JF + 1, 500)]
+    ff_cases = [{'conv': c, 'form': fm, 'j0': j, 'j1': min(j + 500, JF + 1)} for c in ('ansi', 'fringe', 'noll', 'xy') for fm in FWD_FORMS[c] for j in range(0, JF + 1, 500)]
+    fz_cases = [{'form_n': f1, 'n0': 0, 'n1': NF + 1} for f1 in FORMS]
     fi_cases = [{'form_n': f1, 'form_m': f2, 'n0': a, 'n1': min(a + 20, NF + 1)} for f1 in FORMS for f2 in FORMS for a in range(0, NF + 1, 20)]
     cover = ', '.join(f'{c}: j <= {per[c][0]} (rows <= {per[c][1]})' for c in per)
     return [
@@ -404,10 +461,16 @@ def plan(tier, seed):
         ScopeUnit('history_sweeps', hs_cases, run_history_sweep,
                   f'per map, in one process: every index up to {JS} ascending, then descending, then ascending again, then in a scattered (stride 7919 mod J) order; every answer against the published order', chunk=1),
         ScopeUnit('forms_forward', ff_cases, run_forms_forward,
-                  f'argument forms: every index j <= {JF} of the four forward maps given as python int, np.int32 and np.int64; the answer must be the published order (integer pair)'),
+                  f'argument forms: every index j <= {JF} of the forward maps given as python int, np.int32, np.int64, integer-valued python float and np.float64 (noll_to_nm: the three '
+                  'integer types only -- it refuses float-typed indices on the pinned tree, as Python indexing does; not part of the alphabet); the answer, compared by value, must be the '
+                  'published order; an exception is a violation'),
         ScopeUnit('forms_inverse', fi_cases, run_forms_inverse,
-                  f'argument forms: every valid (n,m) with n <= {NF} through nm_to_fringe and nm_to_ansi_j with n and m independently given as python int, np.int32, np.int64 (all 9 '
-                  'combinations) against exact integer closed forms; nm_to_name (a pure index function) must return the same string for every form as for python ints'),
+                  f'argument forms: every valid (n,m) with n <= {NF} through nm_to_fringe and nm_to_ansi_j with n and m independently given as python int, np.int32, np.int64, python float, '
+                  'np.float64 (all 25 combinations; negative float m is exactly what -abs(m) yields for float orders) against exact integer closed forms, by value; nm_to_name (a pure index '
+                  'function) must return the same string as for python ints for every form with an integer-typed m (float-typed m is refused by the pinned tree and left out)'),
+        ScopeUnit('forms_zero', fz_cases, run_forms_zero,
+                  f'm = 0 spelled as a signed floating zero (-0.0, +0.0, np.float64(-0.0), -abs(0.0), -np.abs(np.float64(0)), -abs(np.float32(0))) for every even n <= {NF} in every form of n: '
+                  'nm_to_fringe / nm_to_ansi_j must return the index of (n, 0), nm_to_name the name of (n, 0)'),
         ScopeUnit('nm_rows', row_cases, run_rows,
                   f'every valid (n,m) with n <= {NR}: nm_to_fringe and nm_to_ansi_j against exact integer closed forms, and fringe_to_nm / ansi_j_to_nm of the result returns (n,m)'),
     ]
